@@ -41,7 +41,8 @@ def verify_contract(verifier, cls, **kw):
                 stats=verifier.stats.get((cls.file, cls.qualname)))
 
 
-def discharge_all(obs, quick_ms=300, cli_timeout_s=20, all_solvers=False, seed=0, workdir=None, threads=3):
+def discharge_all(obs, quick_ms=300, cli_timeout_s=20, all_solvers=False, seed=0, workdir=None, threads=3,
+                  _nodedupe=False):
     """Stage 1: in-process z3 with a short budget (sequential: z3py contexts are not thread safe).
     Stage 2: everything not proved goes to the command-line portfolio, several obligations at a time."""
     from concurrent.futures import ThreadPoolExecutor
@@ -50,9 +51,12 @@ def discharge_all(obs, quick_ms=300, cli_timeout_s=20, all_solvers=False, seed=0
     dup = []
     for ob in obs:
         neg = tm.Not(ob.goal)
-        sliced = tm.cone(list(ob.pc), [neg], getattr(ob, 'defs', None)) + [neg]
+        if tm.symbols(neg):
+            sliced = tm.cone(list(ob.pc), [neg], getattr(ob, 'defs', None)) + [neg]
+        else:
+            sliced = list(ob.pc) + [neg]      # "this path is infeasible": the whole path condition matters
         key = frozenset(sliced)
-        if key in seen:
+        if key in seen and not _nodedupe:
             dup.append((ob, seen[key]))
             continue
         seen[key] = ob
@@ -77,7 +81,9 @@ def discharge_all(obs, quick_ms=300, cli_timeout_s=20, all_solvers=False, seed=0
             res2 = solve.cli_race(full, cli_timeout_s, workdir, wait_all=False)
             d2 = {v.verdict for v in res2.values() if v.verdict != "unknown"}
             if "unsat" in d2:
-                verdict, res = "unsat", res2
+                verdict, res = "unsat", {k + "/full": v for k, v in res2.items()}
+                for v in res.values():
+                    v.solver = v.solver + "/full"
             elif verdict == "unknown" and d2:
                 verdict, res = d2.pop(), res2
         if verdict == "unknown" and any(tm.has_quantifier(a) for a in list(ob.pc) + [ob.goal]):
@@ -105,11 +111,16 @@ def discharge_all(obs, quick_ms=300, cli_timeout_s=20, all_solvers=False, seed=0
                 ob.result = solve.Result(verdict, win.solver if win else "portfolio", wall, None,
                                          detail="; ".join("%s: %s" % (k, v.detail) for k, v in res.items() if v.detail),
                                          all_=summary)
+    redo = []
     for ob, first in dup:
         r0 = first.result
-        ob.result = solve.Result(r0.verdict, r0.solver + "(same query)", 0.0, None, r0.detail, dict(r0.all))
-        if "bounded_falsification" in first.meta:
-            ob.meta["bounded_falsification"] = first.meta["bounded_falsification"]
+        if r0.verdict == "unsat" and "full" not in r0.solver:
+            # the identical (sliced) query was proved: the proof is this obligation's proof too
+            ob.result = solve.Result("unsat", r0.solver + "(same query)", 0.0, None, r0.detail, dict(r0.all))
+        else:
+            redo.append(ob)       # anything else is decided on this obligation's own full path condition
+    if redo:
+        discharge_all(redo, quick_ms, cli_timeout_s, all_solvers, seed, workdir, threads, _nodedupe=True)
     # models for failed obligations (in-process z3, bounded effort) -- used for replay only
     for ob in obs:
         if ob.result.verdict == "sat":
